@@ -156,7 +156,9 @@ func (r *Res) setErr(e liquid.SourceError) {
 // Parse calls ParseTemplateLocation at the API boundary.
 func Parse(e *liquid.Engine, src string, path string, line int) (t *liquid.Template, r Res) {
 	defer catch(&r)
-	t, err := e.ParseTemplateLocation([]byte(src), path, line)
+	buf := []byte(src)
+	t, err := e.ParseTemplateLocation(buf, path, line)
+	scribble(buf)
 	r.setErr(err)
 	if r.IsErr && t != nil {
 		r.Shape = "template returned together with an error"
@@ -167,10 +169,20 @@ func Parse(e *liquid.Engine, src string, path string, line int) (t *liquid.Templ
 	return
 }
 
+// scribble overwrites a source buffer after it was handed to a Parse method: the caller owns its buffer and may reuse
+// it, so a parsed template (or the include cache) that still refers to it shows up as garbage in every later render.
+func scribble(buf []byte) {
+	for i := range buf {
+		buf[i] = "{%}# -"[i%6]
+	}
+}
+
 // ParseCache calls ParseTemplateAndCache at the API boundary.
 func ParseCache(e *liquid.Engine, src string, path string, line int) (t *liquid.Template, r Res) {
 	defer catch(&r)
-	t, err := e.ParseTemplateAndCache([]byte(src), path, line)
+	buf := []byte(src)
+	t, err := e.ParseTemplateAndCache(buf, path, line)
+	scribble(buf)
 	r.setErr(err)
 	if r.IsErr && t != nil {
 		r.Shape = "template returned together with an error"
@@ -184,7 +196,9 @@ func ParseCache(e *liquid.Engine, src string, path string, line int) (t *liquid.
 // ParsePlain calls ParseTemplate (no location).
 func ParsePlain(e *liquid.Engine, src string) (t *liquid.Template, r Res) {
 	defer catch(&r)
-	t, err := e.ParseTemplate([]byte(src))
+	buf := []byte(src)
+	t, err := e.ParseTemplate(buf)
+	scribble(buf)
 	r.setErr(err)
 	if r.IsErr && t != nil {
 		r.Shape = "template returned together with an error"
